@@ -45,7 +45,7 @@ def plan(tier, seed):
                 'floor': {'distinct_nontrivial': 400, 'multi_engine_runs': 900, 'suspended_query_runs': 120, 'threaded_runs': 25,
                           'solo_runs_in_fresh_interpreter': 1500, 'thread_switches_observed': 10000, 'schedules_round_robin': 300,
                           'schedules_random': 300, 'observations_compared': 30000}}
-    return {'n': 15000, 'deadline': 560, 'case_timeout': 200,
+    return {'n': 17500, 'deadline': 560, 'case_timeout': 200,
             'floor': {'distinct_nontrivial': 6000, 'multi_engine_runs': 18000, 'suspended_query_runs': 3000, 'threaded_runs': 600,
                       'solo_runs_in_fresh_interpreter': 30000, 'thread_switches_observed': 300000, 'observations_compared': 500000}}
 
